@@ -207,6 +207,7 @@ type VC struct {
 	epochCtr int
 	recSpecs map[string]*recSpecInfo
 	nameCount map[string]int
+	mapLenUse int // 0 unknown, 1 yes, -1 no
 	lemma     *Lemma
 	uses      []string
 	memDefs   map[string][2]string
